@@ -157,8 +157,11 @@ def fix(
     if not fix_even_unparsable:
         # If fix_even_unparsable wasn't set, check for templating or parse
         # errors and suppress fixing if there were any.
-        _, num_filtered_errors = result.count_tmp_prs_errors()
-        if num_filtered_errors > 0:
+        # NOTE: Use the total count (before filtering by noqa or ignore), because
+        # a suppressed templating or parsing error still means we can't
+        # guarantee the validity of any fixes. This matches the CLI behaviour.
+        total_errors, _ = result.count_tmp_prs_errors()
+        if total_errors > 0:
             should_fix = False
     if should_fix:
         sql = result.paths[0].files[0].fix_string()[0]
